@@ -1073,7 +1073,7 @@ impl Point {
             let v = x & m & 31;              // low 5 bits if x odd, or 0
             let c = (v & 16) << 1;           // carry (0 or 32)
             sd[i] = v.wrapping_sub(c) as i8;
-            y = y.wrapping_sub(v as u128).wrapping_add(c as u128) >> 1;
+            y = (y.wrapping_sub(v as u128) >> 1).wrapping_add((c >> 1) as u128);
         }
         sd
     }
